@@ -1,3 +1,7 @@
 // Kani harnesses mounted into crates/rip-tools/src/builtins/shell.rs (cfg(kani) only).
 #![allow(unused_imports, dead_code)]
 use super::*;
+include!("/verif/harness/common.rs");
+
+// slice-based family, compiled only for its own property (see harness/ripd/session.rs)
+include!(env!("VERIF_SLICE_C17_SHELL"));
